@@ -47,6 +47,7 @@ GNext ==
   \/ (On("ConvertMove") /\ \E d \in Slots, s \in Slots, ty \in Types : ConvertMove(d, s, ty) /\ Rec("ConvertMove", [d |-> d, s |-> s, ty |-> ty]))
   \/ (On("DefaultConstruct") /\ \E s \in ConstructSlots, ty \in Types : \E e \in ExtChoices :
         DefaultConstruct(s, ty, Len(e)) /\ Rec("DefaultConstruct", [s |-> s, ty |-> ty, n |-> Len(e)]))
+  \/ (On("Adopt") /\ \E d \in Slots, s \in Slots, how \in {"const", "lvalue", "rvalue"} : Adopt(d, s, how) /\ Rec("Adopt", [d |-> d, s |-> s, how |-> how]))
   \/ (\E v \in ViewIds, s \in Slots : MakeView(v, s) /\ Rec("MakeView", [view |-> v, s |-> s]))
   \/ (\E v \in ViewIds : DropView(v) /\ Rec("DropView", [view |-> v]))
   \/ (\E v \in ViewIds : view[v].st = "valid" /\ \E c \in Box(view[v].ext), val \in Vals \ {0} :
